@@ -52,11 +52,12 @@ theorem c07_by_version : byVersion = versions.map fun v => (v, v) := by decide +
 
 /-- how many (version, command) pairs the schema round-trip theorem covers: all but the rows whose rx
 schema ends in a greedy list (`readCounters`, `readAndClearCounters`), nests an optional field in a trailing struct
-(`getMulticastTableEntry`) or contains the one `requires`-conditioned field (`getTokenData`); those rows are covered by the
+(`getMulticastTableEntry`), contains the one `requires`-conditioned field (`getTokenData`) or the struct with the
+receive-side padding quirk (`EmberKeyStruct` in `getKey` / `getKeyTableEntry`); those rows are covered by the
 differential check only -/
 theorem c07_rx_coverage :
     (versions.map fun v => ((cmds v).filter fun c => !rtOk c.rxT).length) =
-      [3, 3, 3, 3, 3, 4, 4, 4, 4, 4, 3] := by
+      [5, 5, 5, 5, 5, 6, 6, 6, 6, 4, 3] := by
   decide +kernel
 
 /-- **receive path, every version, every command, every value tuple**: for a command `c` of version `v`
@@ -65,7 +66,7 @@ the receive path as command `c` with exactly the values `vs` and no bytes left o
 theorem c07_rx_roundtrip_all (v : Nat) (hv : v ∈ versions) (c : Cmd) (hc : c ∈ cmds v)
     (seq : Nat) (hs : seq < 256) (vs : List Val) (body : List UInt8)
     (hok : rtOk c.rxT = true) (hser : serFields c.rxT vs = some body) (htv : tailVals c.rxT vs) :
-    rxFrame v (cmds v) (txHeader (hdrOf v) seq c.id ++ body) = .ok seq c.name vs [] := by
+    rxFrame v (cmds v) (txHeader (hdrOf v) seq c.id ++ body) = .ok seq c.id c.name vs [] := by
   have htab := c07_tables_ok v hv
   simp only [tableOk, Bool.and_eq_true, List.all_eq_true] at htab
   obtain ⟨⟨hid, _⟩, hrows⟩ := htab
